@@ -173,7 +173,7 @@ func genOp(r *rand.Rand, m *model.Client, w opWeights, salt int) adapt.Op {
 				if r.Intn(5) == 0 {
 					return adapt.Op{Kind: adapt.OpUpdateTable, Table: name, Chg: []adapt.IndexChange{{Update: mon.Pick(r, []string{"gsi1", "gsi2", "gsi3", "nosuch"})}}}
 				}
-				del := mon.Pick(r, []string{"gsi1", "gsi2", "gsi3", "gsi4", "nosuch"})
+				del := mon.Pick(r, []string{"gsi1", "gsi2", "gsi3", "gsi4", "gsi5", "nosuch"})
 				if del == "lsi1" {
 					del = "nosuch"
 				}
@@ -197,7 +197,13 @@ func genOp(r *rand.Rand, m *model.Client, w opWeights, salt int) adapt.Op {
 				for _, ix := range t.Spec.Indexes {
 					have[ix.Name] = true
 				}
-				for _, cand := range []adapt.IndexSpec{{Name: "gsi3", Hash: "s"}, {Name: "gsi1", Hash: "g"}} {
+				cands := []adapt.IndexSpec{{Name: "gsi3", Hash: "s"}, {Name: "gsi1", Hash: "g"}}
+				if r.Intn(3) == 0 {
+					// the helper (which declares every key attribute as a string) pointed at the table's own key
+					// attributes: fine when they are strings, a refusal when they are numbers or binaries
+					cands = append([]adapt.IndexSpec{{Name: "gsi5", Hash: "g", Range: "h"}}, cands...)
+				}
+				for _, cand := range cands {
 					if !have[cand.Name] {
 						c := cand
 						return adapt.Op{Kind: adapt.OpAddIndex, Table: name, Ix: &c}
